@@ -1,3 +1,4 @@
+pub mod automaton;
 pub mod common;
 pub mod history;
 pub mod modes;
@@ -8,6 +9,8 @@ use crate::run::Check;
 pub fn all() -> Vec<Box<dyn Check>> {
     vec![
         Box::new(scan::C01),
+        Box::new(automaton::C02),
+        Box::new(automaton::C03),
         Box::new(scan::C04),
         Box::new(scan::C05),
         Box::new(modes::C06),
